@@ -198,7 +198,7 @@ func c07RoundTrips(c *Ctx, r *Report) {
 					r.OK("R07.9", key, c.Rel(cv.Pos()), "frozen exception: "+why)
 					continue
 				}
-				r.Check(magnitudeGuarded(b, src, cv.X) || anyIntGuard(b, cv.X), "R07.9", key, c.Rel(cv.Pos()), "under a magnitude test",
+				r.Check(magnitudeGuarded(b, src, cv.X) || anyIntGuard(b, cv.X) || roundTripTested(cv), "R07.9", key, c.Rel(cv.Pos()), "under a magnitude test",
 					fmt.Sprintf("%s converts an integer operand to float64, computes on it and converts the result back to an integer with no test of its magnitude: beyond 2^53 the result is rounded, and at 2^63 the conversion wraps", SSAName(fn)))
 			}
 		}
@@ -270,4 +270,52 @@ func c07NumericToFloatBack(c *Ctx, r *Report) {
 	if n == 0 {
 		r.OK("R07.9b", "no int(GetNumericToFloatValue()) conversion", "", "none in pkg/mlrval, pkg/bifs, pkg/transformers")
 	}
+}
+
+// roundTripTested: the integer made from the float reaches FromInt only where
+// float64(integer) == float has been found true — the conversion lost nothing
+// (and did not wrap: float64(int64(2^63)) is -2^63).
+func roundTripTested(cv *ssa.Convert) bool {
+	if cv.Referrers() == nil {
+		return false
+	}
+	var tests []*ssa.BinOp
+	for _, ref := range *cv.Referrers() {
+		back, ok := ref.(*ssa.Convert)
+		if !ok || !isFloat64(back.Type()) || back.Referrers() == nil {
+			continue
+		}
+		for _, r2 := range *back.Referrers() {
+			if cmp, ok := r2.(*ssa.BinOp); ok && cmp.Op == token.EQL && ((cmp.X == ssa.Value(back) && cmp.Y == cv.X) || (cmp.Y == ssa.Value(back) && cmp.X == cv.X)) {
+				tests = append(tests, cmp)
+			}
+		}
+	}
+	if len(tests) == 0 {
+		return false
+	}
+	n := 0
+	for _, ref := range *cv.Referrers() {
+		call, ok := ref.(*ssa.Call)
+		if !ok {
+			continue
+		}
+		nm := CalleeName(&call.Call)
+		if !(strings.HasSuffix(nm, ".FromInt") || strings.HasSuffix(nm, ".SetFromInt")) {
+			continue
+		}
+		n++
+		ok2 := false
+		for _, g := range GuardsAt(call.Block()) {
+			for _, t := range tests {
+				if g.Cond == ssa.Value(t) && g.Polarity {
+					ok2 = true
+				}
+			}
+		}
+		if !ok2 {
+			return false
+		}
+	}
+	return n > 0
 }
